@@ -3,7 +3,7 @@
 (* C04 — model checking the cover-tree design model (CoverTree.tla).       *)
 (*                                                                         *)
 (* TLC enumerates every SEQUENCE (the order matters: the first point is    *)
-(* the root, the others are popped from the back) of 2..MaxN points of a   *)
+(* the root, the others are popped from the back) of 1..MaxN points of a   *)
 (* small lattice under the Manhattan metric, builds the tree with the      *)
 (* transcribed batch_insert, and checks in the resulting state             *)
 (*   TreeOK    every point is exactly one leaf; nothing is left in the     *)
@@ -21,7 +21,7 @@
 (***************************************************************************)
 EXTENDS Knn, CoverTree, TLC, Json
 
-CONSTANTS MaxN,     \* number of points 2..MaxN
+CONSTANTS MaxN,     \* number of points 1..MaxN (a single point and all-identical points included)
           Side,     \* coordinates 0..Side-1
           Dim,      \* 1 or 2
           QMargin   \* queries range over the lattice widened by QMargin on every side
@@ -38,8 +38,7 @@ Queries == IF Dim = 1 THEN { <<x>> : x \in QCoord } ELSE { <<x, y>> : x, y \in Q
 Dm(D) == [i \in 1..Len(D) |-> [j \in 1..Len(D) |-> Key("man", 1, D[i], D[j])]]
 Dq(D, q) == Keys("man", 1, D, q)
 
-Init == /\ data \in UNION { [1..n -> Points] : n \in 2..MaxN }
-        /\ BuildDefined(Dm(data))
+Init == /\ data \in UNION { [1..n -> Points] : n \in 1..MaxN }
         /\ tree = Leaf(0) /\ pc = "new"
 
 (* the build must consume every point: nothing may be left in the point set *)
